@@ -225,9 +225,8 @@ func (s *readerSys) Apply(op int, check bool) (what, sig string) {
 					s.dead = true
 				} else if !errOK(err) {
 					fail("wrong-error", "data ran out: error %q does not match the source's error %q", err, E)
-				} else if len(b) != 0 {
-					fail("bytes-with-error", "failed call returned %d bytes", len(b))
 				}
+				// (what a failed call returns besides its error is not specified; that it consumed nothing shows in the next operations)
 			}
 		case "skip":
 			err := s.r.Skip(o.n)
